@@ -227,6 +227,7 @@ func checkC13(c *ctx) {
 	var samples []interface{}
 	feats := map[string]int{}
 	discarded := 0
+	firstBadInput := ""
 	outcomes := map[string]int{}
 	for ci, cf := range cfgs {
 		if c.R.NumViolations() >= 8 {
@@ -280,6 +281,9 @@ func checkC13(c *ctx) {
 		}
 		for _, m := range regexp.MustCompile(`(?m)^((?:g|s|h)/[a-z0-9]+)/\S+\.go:\d+`).FindAllStringSubmatch(vetOut, -1) {
 			badInput[m[1]] = true
+		}
+		if len(badInput) > 0 && firstBadInput == "" {
+			firstBadInput = firstLines(vetOut, 4)
 		}
 		parallel(len(pkgs), func(i int) {
 			p := pkgs[i]
@@ -377,6 +381,11 @@ func checkC13(c *ctx) {
 			b, _ := os.ReadFile(filepath.Join(dir, pkgs[len(pkgs)/2].Rel, pkgs[len(pkgs)/2].Files[0]))
 			samples = append(samples, map[string]interface{}{"mode": cf.mode, "auto_instrument": cf.auto, "package": pkgs[len(pkgs)/2].Rel, "input": string(b)})
 		}
+	}
+	if discarded > 0 {
+		// An input that does not type-check under the cff tag is this
+		// framework's fault, never cff's; it must not shrink the workload silently.
+		c.R.Inconclusive(fmt.Sprintf("%d generated input packages do not type-check under the cff tag and were not given to cff (input generator defect): %s", discarded, firstBadInput))
 	}
 	cov := map[string]interface{}{
 		"evaluations":         evals,
